@@ -109,7 +109,7 @@ func prunePool(l *ledGen) {
 // oneSpenderPerCoin: set to false once the repair of F1 (deleteUnminedInputs removes only the purged
 // transaction's hash from the marker list) is on the main branch - the generated histories then carry
 // several delivered spenders per coin again, and nothing else refers to the finding.
-const oneSpenderPerCoin = true
+const oneSpenderPerCoin = false
 
 var burned = map[string]bool{}
 var delivered = map[string][]string{}
